@@ -23,6 +23,8 @@ def run_unit(unit_dir: str, repo_root: str = '/repo', tier: str = 'quick', keep:
            'functions': [], 'assumed_contracts': [], 'assumption_scan': [], 'rules': {}, 'substitutions': [],
            'vacuity': {}, 'solver_time_s': 0.0, 'wall_s': 0.0, 'checker_cmd': '', 'items': [], 'bounded': [],
            'extra_assumptions': ['bounded stand-in: exhaustive native enumeration up to the stated bound, NOT a proof']}
+    if cfg.get('inside'):
+        return _run_inside(unit, unit_dir, cfg, res, repo_root, tier, keep, t0)
     crate = os.path.join(VERIF_ROOT, 'replay-drivers', cfg['crate'])
     target = os.path.join(WORK_ROOT, f'native-target-{os.getpid()}')
     os.makedirs(WORK_ROOT, exist_ok=True)
@@ -65,6 +67,11 @@ def run_unit(unit_dir: str, repo_root: str = '/repo', tier: str = 'quick', keep:
             return res
         j = json.loads(line)
         fails = j.get('failures', [])
+        if not fails and not (j.get('nontrivial_pairs') or 0):
+            # vacuity guard: an enumeration in which no case exercised the property proves nothing
+            res['status'] = 'tool-error'
+            res['tool_error'] = f'vacuous enumeration: {j.get("states")} cases, none non-trivial'
+            return res
         res['bounded'].append({'id': cfg['obligation'], 'bound': j.get('bound', ''), 'status': 'fail' if fails else 'pass',
                                'clause': cfg.get('clause', ''), 'states': j.get('states'), 'pairs': j.get('pairs')})
         res['enumeration'] = {'states': j.get('states'), 'pairs': j.get('pairs'), 'nontrivial_pairs': j.get('nontrivial_pairs')}
@@ -90,3 +97,93 @@ def run_unit(unit_dir: str, repo_root: str = '/repo', tier: str = 'quick', keep:
         shutil.rmtree(target, ignore_errors=True)
         if tmp_crate:
             shutil.rmtree(tmp_crate, ignore_errors=True)
+
+
+INSIDE_TARGET = os.path.join(VERIF_ROOT, 'cache', 'inside-target')
+
+
+def _run_inside(unit, unit_dir, cfg, res, repo_root, tier, keep, t0):
+    """`inside = "<file>"`: the driver is a #[cfg(test)] module appended to that file in a scratch copy of the tree (the
+    same device as the Kani engine), so that it can reach private modules; it runs under `cargo test` of the real crate
+    (dev profile: the repository's debug assertions are active) and prints the same one-line JSON."""
+    import re
+    work = os.path.join(WORK_ROOT, f'nwork-{os.getpid()}')
+    os.makedirs(WORK_ROOT, exist_ok=True)
+    try:
+        r = subprocess.run(['rsync', '-a', '--delete', '--exclude', 'target', '--exclude', '.git', repo_root.rstrip('/') + '/', work + '/'],
+                           capture_output=True, text=True)
+        if r.returncode != 0:
+            res['status'] = 'tool-error'; res['tool_error'] = 'rsync failed: ' + r.stderr[-300:]
+            return res
+        src = os.path.join(work, cfg['inside'])
+        if not os.path.exists(src):
+            res['status'] = 'tool-error'; res['tool_error'] = f'lost anchor: {cfg["inside"]} not found'
+            return res
+        text = open(os.path.join(unit_dir, cfg.get('module', 'inside.rs'))).read()
+        mod = 'verif_native_' + re.sub(r'\W', '_', unit).lower()
+        with open(src, 'a') as f:
+            f.write(f'\n\n#[cfg(test)]\n#[allow(unused, clippy::all)]\nmod {mod} {{\n    use super::*;\n' + text + '\n}\n')
+        args = cfg.get('thorough_args' if tier == 'thorough' else 'quick_args', [])
+        env = dict(os.environ, CARGO_TARGET_DIR=INSIDE_TARGET, CARGO_NET_OFFLINE='true', VERIF_NATIVE_ARGS=' '.join(args), RUST_BACKTRACE='0')
+        pkg = cfg.get('package', 'sozu-lib')
+        cmd = ['cargo', 'test', '--offline', '-p', pkg, '--lib', f'{mod}::', '--', '--nocapture', '--test-threads', '1']
+        res['checker_cmd'] = 'VERIF_NATIVE_ARGS="' + ' '.join(args) + '" ' + ' '.join(cmd) + f'   (module units/{unit}/{cfg.get("module", "inside.rs")} appended to {cfg["inside"]} in a scratch copy)'
+        b = subprocess.run(['cargo', 'test', '--offline', '-p', pkg, '--lib', '--no-run'], cwd=work, env=env, capture_output=True, text=True, timeout=3600)
+        if b.returncode != 0:
+            res['status'] = 'tool-error'
+            res['tool_error'] = 'driver module does not build against the current tree: ' + ' | '.join(l for l in b.stderr.split('\n') if l.startswith('error'))[:600]
+            return res
+        t1 = time.time()
+        r = subprocess.run(cmd, cwd=work, env=env, capture_output=True, text=True, timeout=cfg.get('timeout_s', 1800))
+        res['solver_time_s'] = round(time.time() - t1, 2)
+        line = next((l[l.index('{"bound"'):] for l in r.stdout.split('\n') if '{"bound"' in l), None)
+        if line is None:
+            if 'panicked' in (r.stdout + r.stderr):
+                tail = (r.stdout + r.stderr)[-2000:]
+                res['status'] = 'violation'
+                res['bounded'].append({'id': cfg['obligation'], 'bound': 'driver aborted', 'status': 'fail', 'clause': cfg.get('clause', '')})
+                res['failures'].append({'id': cfg['obligation'], 'message': 'the real code panicked during the enumeration', 'kind': 'native',
+                                        'clause': cfg.get('clause', ''), 'rendered': tail,
+                                        'exit': {'file': cfg.get('file', ''), 'line': 0, 'text': 'panic'},
+                                        'replay': {'attempted': True, 'found': True, 'observed': tail[-800:], 'cmd': res['checker_cmd']}})
+                return res
+            res['status'] = 'tool-error'; res['tool_error'] = 'driver produced no result: ' + (r.stdout + r.stderr)[-300:]
+            return res
+        j = json.loads(line)
+        fails = j.get('failures', [])
+        if not fails and not (j.get('nontrivial_pairs') or 0):
+            # vacuity guard: an enumeration in which no case exercised the property proves nothing
+            res['status'] = 'tool-error'
+            res['tool_error'] = f'vacuous enumeration: {j.get("states")} cases, none non-trivial'
+            return res
+        res['bounded'].append({'id': cfg['obligation'], 'bound': j.get('bound', ''), 'status': 'fail' if fails else 'pass',
+                               'clause': cfg.get('clause', ''), 'states': j.get('states'), 'pairs': j.get('pairs')})
+        res['enumeration'] = {'states': j.get('states'), 'pairs': j.get('pairs'), 'nontrivial_pairs': j.get('nontrivial_pairs')}
+        for f in fails:
+            res['failures'].append({'id': cfg['obligation'], 'message': 'bounded enumeration found a failing pair', 'kind': 'native',
+                                    'clause': cfg.get('clause', ''), 'rendered': json.dumps(f)[:2500],
+                                    'exit': {'file': cfg.get('file', ''), 'line': 0, 'text': f.get('observed', '')[:200].split(';')[0]},
+                                    'replay': {'attempted': True, 'found': True, 'input': f.get('input'), 'observed': f.get('observed'),
+                                               'required': cfg.get('clause', ''), 'cmd': res['checker_cmd']}})
+        if fails:
+            res['status'] = 'violation'
+        return res
+    except subprocess.TimeoutExpired:
+        res['status'] = 'tool-error'; res['tool_error'] = 'native (inside) driver timed out'
+        return res
+    finally:
+        res['wall_s'] = round(time.time() - t0, 2)
+        if not keep:
+            shutil.rmtree(work, ignore_errors=True)
+        # drop sozu artefacts from the cache target, keep third-party deps
+        try:
+            for root, dirs, files in os.walk(INSIDE_TARGET):
+                for n in files:
+                    if 'sozu' in n:
+                        os.remove(os.path.join(root, n))
+                for d in list(dirs):
+                    if 'sozu' in d:
+                        shutil.rmtree(os.path.join(root, d), ignore_errors=True)
+                        dirs.remove(d)
+        except Exception:
+            pass
